@@ -574,3 +574,117 @@ Theorem C10_drawio_judge_consistent : forall t,
   d_async t = false -> dmodel_ok t = true -> dspec_ok t = true.
 Proof. exact model_agreement_implies_spec. Qed.
 Print Assumptions C10_drawio_judge_consistent.
+
+(** * Part 5: faults DURING THE CONSTRUCTION of an iterator (model/IterCtor.v)
+
+    Both constructors assemble the object attribute by attribute and prime the generator, whose
+    set-up part runs code of the padding and allocates the frame cache.  A constructor is a program
+    (list of [IterCtor.instr]); [exec p k] runs it with a fault at position [k] - for EVERY [k] -,
+    the half-built object is then dropped ([__del__] -> [close()] on whatever attributes exist) and
+    the data collected once nobody references it.  [after_drop]: the iterator is gone, the caller of
+    [_from_render_data_] still holds its data; [the_end]: the owner of kept data has finalized it
+    itself and everything is released. *)
+From TI Require model.IterCtor proofs.IterCtorProofs model.FinNest proofs.FinNestProofs.
+
+(** whatever the constructor program (ANY list of instructions, in any order) and wherever it
+    faults: never two finalizer entries, and exactly one in the end if a data object came into being *)
+Theorem C10_ctor_exactly_once_for_every_design_and_fault : forall kd p k,
+  (IterCtor.d_calls (IterCtor.c_data (IterCtor.after_drop kd p k)) <= 1)%nat /\
+  let d := IterCtor.c_data (IterCtor.the_end kd p k) in
+  (IterCtor.d_calls d <= 1)%nat /\
+  (IterCtor.d_exists d = true -> IterCtor.d_finalized d = true /\ IterCtor.d_calls d = 1%nat).
+Proof. exact IterCtorProofs.ctor_exactly_once_for_every_design_and_fault. Qed.
+Print Assumptions C10_ctor_exactly_once_for_every_design_and_fault.
+
+(** data of a caller who asked to keep it is untouched after the collection of the (half-built)
+    iterator, for every fault position, in EVERY constructor program that never gives the ownership
+    flag a value the caller did not ask for - and the code's programs are of that kind *)
+Theorem C10_ctor_kept_data_untouched : forall p k,
+  IterCtor.flags_faithful IterCtor.KKeep p ->
+  IterCtor.kept_untouched (IterCtor.c_data (IterCtor.after_drop IterCtor.KKeep p k)).
+Proof. exact IterCtorProofs.ctor_kept_untouched. Qed.
+Print Assumptions C10_ctor_kept_data_untouched.
+
+Theorem C10_ctor_code_kept_data_untouched :
+  (forall kd, IterCtor.flags_faithful kd (IterCtor.prog_of kd)) /\
+  forall k, IterCtor.kept_untouched
+              (IterCtor.c_data (IterCtor.after_drop IterCtor.KKeep (IterCtor.prog_of IterCtor.KKeep) k)).
+Proof. exact IterCtorProofs.ctor_code_kept. Qed.
+Print Assumptions C10_ctor_code_kept_data_untouched.
+
+(** the excluded design "the flag defaults to True in the common initialisation and the caller's
+    value is stored after priming": unfaulted it is the code; a fault at positions 7, 8 (priming) or 9
+    (between priming and the late store) makes the collected half-built iterator finalize kept data *)
+Theorem C10_ctor_default_first_refuted :
+  IterCtor.after_drop IterCtor.KKeep (IterCtor.prog_frd_default_first false) 11
+    = IterCtor.after_drop IterCtor.KKeep (IterCtor.prog_of IterCtor.KKeep) 10 /\
+  map (fun k => IterCtor.d_calls (IterCtor.c_data
+                  (IterCtor.after_drop IterCtor.KKeep (IterCtor.prog_frd_default_first false) k))) (seq 0 12)
+    = [0;0;0;0;0;0;0;1;1;1;0;0]%nat /\
+  ~ IterCtor.kept_untouched
+      (IterCtor.c_data (IterCtor.after_drop IterCtor.KKeep (IterCtor.prog_frd_default_first false) 7)) /\
+  ~ IterCtor.flags_faithful IterCtor.KKeep (IterCtor.prog_frd_default_first false).
+Proof. exact IterCtorProofs.default_first_refuted_all. Qed.
+Print Assumptions C10_ctor_default_first_refuted.
+
+(** the un-faulted construction is what [Iter.mk] (Parts 1-1d) starts from, and dropping it is
+    [Iter.close] *)
+Theorem C10_ctor_complete_is_mk : forall RS n term kd c rs0 s,
+  mk RS n term c rs0 = inl s -> c_owns c = IterCtor.owns_of kd ->
+  (forall k, (length (IterCtor.prog_of kd) <= k)%nat ->
+             IterCtor.exec (IterCtor.prog_of kd) k (IterCtor.start kd) = (IterCtorProofs.complete kd, true)) /\
+  let o := match IterCtor.c_obj (IterCtorProofs.complete kd) with Some o => o | None => IterCtor.blank end in
+  IterCtor.a_closed o = Some (closed s) /\ phase s = AtDummy /\ IterCtor.a_flag o = Some (owns (gh s)) /\
+  IterCtor.d_finalized (IterCtor.c_data (IterCtorProofs.complete kd)) = finalized (gh s) /\
+  IterCtor.d_calls (IterCtor.c_data (IterCtorProofs.complete kd)) = fin_calls (gh s) /\
+  IterCtor.d_finalized (IterCtor.c_data (IterCtor.drop (IterCtorProofs.complete kd))) = finalized (gh (close RS s)) /\
+  IterCtor.d_calls (IterCtor.c_data (IterCtor.drop (IterCtorProofs.complete kd))) = fin_calls (gh (close RS s)).
+Proof. exact IterCtorProofs.ctor_complete_is_mk_all. Qed.
+Print Assumptions C10_ctor_complete_is_mk.
+
+(** * Part 6: SEVERAL render-data objects, nested and concurrent finalization (model/FinNest.v)
+
+    Objects indexed by [nat]; [body j] = the objects the finalizer of object [j] finalizes (closing
+    the iterators that own them, finalizing them, dropping the last reference to them) - ANY
+    function, so any nesting depth and shape; [progs] = per thread, the objects whose life its
+    operations end; any schedule.  [race_free]: no [finalize()] of an object is attempted while that
+    object's finalizer is running (in the same thread the real finalizer would recurse for ever; from
+    another thread both would enter it - the once-flag is check-then-act). *)
+Theorem C10_nest_at_most_once : forall body progs sched j,
+  FinNest.race_free body false (FinNest.init progs) sched = true ->
+  let x := FinNest.hp (FinNest.run body false (FinNest.init progs) sched) j in
+  (FinNest.o_calls x <= 1)%nat /\ (FinNest.o_st x = FinNest.Idle <-> FinNest.o_calls x = 0%nat) /\
+  (FinNest.o_st x = FinNest.Done -> FinNest.o_calls x = 1%nat).
+Proof. exact FinNestProofs.nest_at_most_once. Qed.
+Print Assumptions C10_nest_at_most_once.
+
+(** when everything has come to rest: every object named by some thread's program, and every
+    object named by the finalizer of a finalized object - hence everything reachable -, is
+    finalized, by exactly one entry into its finalizer; no finalizer is left running *)
+Theorem C10_nest_each_object_exactly_once : forall body progs sched,
+  FinNest.race_free body false (FinNest.init progs) sched = true ->
+  let c := FinNest.run body false (FinNest.init progs) sched in
+  FinNest.quiescent c = true ->
+  (forall j, In j (concat progs) ->
+             FinNest.o_st (FinNest.hp c j) = FinNest.Done /\ FinNest.o_calls (FinNest.hp c j) = 1%nat) /\
+  (forall i j, FinNest.o_st (FinNest.hp c i) = FinNest.Done -> In j (body i) ->
+               FinNest.o_st (FinNest.hp c j) = FinNest.Done /\ FinNest.o_calls (FinNest.hp c j) = 1%nat) /\
+  (forall j, FinNest.o_st (FinNest.hp c j) <> FinNest.Running).
+Proof. exact FinNestProofs.nest_exactly_once. Qed.
+Print Assumptions C10_nest_each_object_exactly_once.
+
+(** the hypotheses are satisfiable on a composite of nesting depth 2 with a second thread at work
+    in the middle of it; and the excluded design - ONE non-blocking lock shared by all objects -
+    loses the inner object of a composite (one thread) and an unrelated object (two threads), under
+    schedules under which the code finalizes everything *)
+Theorem C10_nest_shared_nonblocking_guard_refuted :
+  (FinNest.race_free FinNestProofs.ex_body false (FinNest.init FinNestProofs.ex_progs) FinNestProofs.ex_sched = true /\
+   FinNest.quiescent (FinNest.run FinNestProofs.ex_body false (FinNest.init FinNestProofs.ex_progs) FinNestProofs.ex_sched) = true) /\
+  (let c := FinNest.run (FinNest.body_of [[]; [0%nat]]) true (FinNest.init [[1%nat]]) (repeat 0%nat 8) in
+   FinNest.quiescent c = true /\ FinNest.is_done (FinNest.hp c 1%nat) = true /\
+   FinNest.o_st (FinNest.hp c 0%nat) = FinNest.Idle /\ FinNest.o_calls (FinNest.hp c 0%nat) = 0%nat) /\
+  (let c := FinNest.run (FinNest.body_of [[]; []]) true (FinNest.init [[0%nat]; [1%nat]]) [0; 1; 1; 0; 0]%nat in
+   FinNest.quiescent c = true /\ FinNest.is_done (FinNest.hp c 0%nat) = true /\
+   FinNest.o_st (FinNest.hp c 1%nat) = FinNest.Idle /\ FinNest.o_calls (FinNest.hp c 1%nat) = 0%nat).
+Proof. exact FinNestProofs.shared_guard_refuted_all. Qed.
+Print Assumptions C10_nest_shared_nonblocking_guard_refuted.
